@@ -35,7 +35,9 @@ MANIFEST = dict(
     text="TLC explores the BlockCheck case table (block kinds x derived header fields x {flip,+1,-1,zero,foreign}, body edits x "
          "{txHash recomputed, not}, timestamp window, ineligible proposers, all mixes of two honest sibling blocks, two-part "
          "tampers, structural tampers of the header: both / neither part, a proposed part of the sibling, of another height or "
-         "fabricated attached to the honest empty header and vice versa, each part tampered, a body on an empty block) through a staged model of the validator and checks that the table only expects what the property justifies; "
+         "fabricated attached to the honest empty header and vice versa, each part tampered, a body on an empty block; REPLAYS: a coherent "
+         "group of derived fields - seed + proof, roots, body commitments, flags, fee, all of them - taken from an earlier honest block of the "
+         "same proposer and offered to a WARMED-UP validator that validated and inserted that block itself) through a staged model of the validator and checks that the table only expects what the property justifies; "
          "every case is replayed on fresh real nodes for every block of real chains (ValidateBlock, AddBlock as the engine and "
          "as the full-sync loader call it, then insertion of the honest original) and TLC validates the recorded trace: model "
          "verdict = real verdict, complete database digest / head / live roots / tree versions unchanged on reject, original "
